@@ -6,6 +6,10 @@ import VelaVerif.Model.Scaling
 ```python
 real_beta = min(np.double(beta) * np.double(input_scale) * (1 << (31 - integer_bits)), np.double((1 << 31) - 1.0))
 scale, shift = scaling.quantise_scale(real_beta)
+if scale == (1 << 31):
+    # significand rounded up to 1.0: renormalise as the reference QuantizeMultiplier does
+    scale >>= 1
+    shift -= 1
 shift = 31 - shift
 diff_min = -1.0 * math.floor(1.0 * ((1 << integer_bits) - 1) * (1 << (total_signed_bits - integer_bits)) / (1 << shift))
 for x in range(256):
@@ -70,8 +74,23 @@ def tableFrom (scale shift : Int) : Except Err (List Int) :=
   | .error e => .error e
   | .ok dmin => (List.range 256).mapM (expEntry scale shift dmin)
 
-/-- `generate_exp_table` from `prod = double(beta) · double(input_scale) · 2^26` -/
+/-- the local renormalisation added by /repo commit 20248de: `quantise_scale` may return the unnormalised multiplier
+    `2^31` (significand rounded up to 1.0); `if scale == (1 << 31): scale >>= 1; shift -= 1` -/
+def renormalise (p : Int × Int) : Int × Int :=
+  if p.1 == 2147483648 then (p.1 >>> 1, p.2 - 1) else p
+
+/-- `generate_exp_table` from `prod = double(beta) · double(input_scale) · 2^26` (the current code) -/
 def generateExpTable (prod : Dbl) : Except Err (List Int) :=
+  match quantiseScale (pyMin prod maxRealMultiplier) with
+  | .error e => .error (.sc e)
+  | .ok p =>
+    let (scale, qshift) := renormalise p
+    tableFrom scale (31 - qshift)
+
+/-- `generate_exp_table` as it was BEFORE /repo commit 20248de (no renormalisation of the multiplier `2^31`): kept only
+    so that the finding that led to the fix stays documented (`softmax_exp_table_m31_witness` in `Props/C19.lean`);
+    not used by the protocol handler. -/
+def generateExpTableOld (prod : Dbl) : Except Err (List Int) :=
   match quantiseScale (pyMin prod maxRealMultiplier) with
   | .error e => .error (.sc e)
   | .ok (scale, qshift) => tableFrom scale (31 - qshift)
